@@ -33,3 +33,20 @@ Definition chk_S_hier_derived (expect : res (list vlab)) (probes : list vlab) (o
 Definition chk_S_hier_go (init ops : list vlab) (outs : list bool) (probes : list vlab) (observed : vhobs) : bool :=
   let '(l, r) := S_hgo_run val_eqb (map lab_canon init) (map lab_canon ops) in
   list_eqb Bool.eqb r outs && hobs_eqb (S_h_observe val_eqb l (map lab_canon probes)) (hobs_canon observed).
+
+(* a derived hierarchical index whose label SET is fixed by the operation but not its order (rehierarch,
+   reorder_for_hierarchy, set operations): it must be an exact bijection for its own table *)
+Definition lsubsetb (a b : list vlab) : bool := forallb (fun x => lmemb val_eqb x b) a.
+Definition chk_S_hier_set (expect probes : list vlab) (observed : res vhobs) : bool :=
+  match observed with
+  | Err _ => false
+  | Ok o => chk_S_hier (h_values o) probes observed &&
+            lsubsetb (map lab_canon (h_values o)) (map lab_canon expect) && lsubsetb (map lab_canon expect) (map lab_canon (h_values o))
+  end.
+
+(* a zero-length hierarchical index (from_names, empty 2-D array): every view is empty *)
+Definition chk_S_hier_empty (probes : list vlab) (observed : res vhobs) : bool :=
+  match observed with
+  | Err _ => false
+  | Ok o => hobs_eqb (S_h_observe val_eqb [] (map lab_canon probes)) (hobs_canon o)
+  end.
